@@ -11,7 +11,7 @@ CONSTANTS
   MinStake = 2
   NamePrice = 1
   Reward = 1
-  MaxTxPerBlock = 3
+  MaxTxPerBlock = 2
   MaxBlocks = 2
   TxPool <- PoolSmall
   NonceModes <- AllModes
